@@ -46,12 +46,14 @@ def ljust (s : List Char) (w : Nat) (c : Char) : List Char := s ++ List.replicat
 def rjust (s : List Char) (w : Nat) (c : Char) : List Char := List.replicate (w - s.length) c ++ s
 
 /-- `struct.pack("<I", n)` -/
-def packLE32 (n : Int) : Py (List Nat) :=
-  if 0 ≤ n ∧ n < 4294967296 then pure (le32 n.toNat) else throw .structError
+def packLE32 : Int → Py (List Nat)
+  | .ofNat k => if k < 4294967296 then pure (le32 k) else throw .structError
+  | .negSucc _ => throw .structError
 
 /-- `struct.pack("<H", n)` -/
-def packLE16 (n : Int) : Py (List Nat) :=
-  if 0 ≤ n ∧ n < 65536 then pure (le16 n.toNat) else throw .structError
+def packLE16 : Int → Py (List Nat)
+  | .ofNat k => if k < 65536 then pure (le16 k) else throw .structError
+  | .negSucc _ => throw .structError
 
 /-- `struct.pack(">I", n)` -/
 def packBE32 (n : Nat) : List Nat := be32 n
